@@ -349,6 +349,22 @@ class Expander:
             base, pos = it.args[path[0]], ("elem",) + tuple(path[1:])
         elif isinstance(it, ast.Call) and isinstance(it.func, ast.Name) and it.func.id == "range":
             pos = ("idx",)
+            # range(len(S)), range(0, len(S)), range(S.shape[0]): positions of S,
+            # the same values as the index of enumerate(S)
+            stop = None
+            if len(it.args) == 1:
+                stop = it.args[0]
+            elif len(it.args) == 2 and isinstance(it.args[0], ast.Constant) and it.args[0].value == 0:
+                stop = it.args[1]
+            if stop is not None:
+                sx = self._x(stop, fi, loop, bindings, depth + 1, seen)
+                if isinstance(sx, ast.Call) and isinstance(sx.func, ast.Name) and sx.func.id == "len" and len(sx.args) == 1:
+                    base = sx.args[0]
+                elif isinstance(sx, ast.Subscript) and isinstance(sx.value, ast.Attribute) and sx.value.attr == "shape" and isinstance(sx.slice, ast.Constant) and sx.slice.value == 0:
+                    base = sx.value.value
+                if base is not it:
+                    k = self._loop_ordinal(fi, loop, base)
+                    return ast.Call(func=ast.Name(id="__it__", ctx=ast.Load()), args=[clone_ast(base), ast.Constant(str(pos)), ast.Constant(k)], keywords=[])
         else:
             pos = ("elem",) + tuple(path)
         xb = self._x(base, fi, loop, bindings, depth + 1, seen)
